@@ -174,6 +174,10 @@
 ; the `variables` lists of the AST (occurrence order, with repetitions); the AST properties themselves are not verified
 (declare-fun tavarsl (TAL) SS)
 (declare-fun bodyvars (Body) SS)
+; a goal BPred(pid) stands for a term: predid/predta are inverse (the Int is only an identity)
+(declare-fun predid (TA) Int)
+(declare-fun predta (Int) TA)
+(assert (forall ((t TA)) (! (= (predta (predid t)) t) :pattern ((predid t)))))
 ; the stack of bound-variable lists
 (declare-datatypes ((BVS 0)) (((bvnil) (bvpush (bvtop SS) (bvrest BVS)))))
 ; block-nesting depth of emitted code: every loop (goal or head unification) is one block, a breakable block with a
